@@ -182,6 +182,7 @@ def _phrase(e):
 def gen_cases(rng, tier):
     T = tier == "thorough"
     W = _ref_words()
+    WSET = set(W)
     out = []
 
     def ent_cases(cls, e):
@@ -244,6 +245,12 @@ def gen_cases(rng, tier):
             for bad in NON_LIST_WORDS:
                 pos = rng.randrange(len(ws))
                 out.append(case("word-replaced-nonlist", "to_entropy", " ".join(ws[:pos] + [bad] + ws[pos + 1:])))
+            # near-miss non-list words: a lookup by sort position (bisect) instead of equality would accept these
+            for pos in (range(len(ws)) if T else rng.sample(range(len(ws)), 4)):
+                w = ws[pos]
+                for bad in (w[:-1], w + "a", w.upper(), w.capitalize(), w[:-1] + chr(ord(w[-1]) - 1) if w[-1] > "a" else w + "0"):
+                    if bad and bad not in WSET:
+                        out.append(case("word-replaced-nearmiss", "to_entropy", " ".join(ws[:pos] + [bad] + ws[pos + 1:])))
             # two words swapped
             i, j = rng.sample(range(len(ws)), 2)
             sw = list(ws)
